@@ -2,7 +2,7 @@
    Only statements, each closed by [exact], with its assumptions printed. *)
 From Coq Require Import Bool Arith ZArith String List.
 From CBI Require Import Lib.Res Model.C01 Spec.C01 Model.C04 Model.C15fs Model.C15 Model.C15i
-     Proofs.C15fs Proofs.C15enum Proofs.C15 Proofs.C15i.
+     Proofs.C15fs Proofs.C15enum Proofs.C15 Proofs.C15i Proofs.C15w Proofs.C15full.
 Import ListNotations.
 Local Open Scope string_scope.
 Local Open Scope list_scope.
@@ -73,27 +73,71 @@ Theorem C15_counted_is_linkfree_enumeration :
 Proof. exact counted_rl. Qed.
 Print Assumptions C15_counted_is_linkfree_enumeration.
 
-(* PARTIAL form of "setmap over the aliased code base = setmap over the canonical one
-   with links removed": the marks of the aliased configuration are those of the
-   canonical configuration, and the setmap built from them over the decorated tree
-   equals the setmap built over the enumeration of the link-free tree.
-   Missing (covered by the differential run only): that the canonical configuration
-   analysed INSIDE the link-free tree resolves every #include as it does in the
-   decorated tree - this needs the include names to be link-free, a condition on file
-   contents that is not stated here. *)
-Theorem C15_counted_once_partial :
-  forall (root : fnode) (tab : ctable) (is_src : string -> bool) (fuel nplat : nat) (dirs : list path)
-         (c1 c2 : list (nat * entry)) (ms : list mark),
-    wf root -> Forall (fun d => is_real root d = true) dirs -> tab_structured tab -> alias_cfg root c1 c2 ->
-    find_A (rp_i root) (getf_i root tab) fuel (iter root is_src link_fuel dirs) c1 = Ok ms ->
-    find_A (rp_i root) (getf_i root tab) fuel (iter root is_src link_fuel dirs) c2 = Ok ms /\
-    setmap (rp_i root) (shape_i root tab) nplat ms (counted root is_src link_fuel dirs) =
-    setmap (rp_i root) (shape_i root tab) nplat ms (iter (remove_links root) is_src link_fuel dirs).
-Proof.
-  intros root tab is_src fuel nplat dirs c1 c2 ms Hwf Hd Hs Ha H.
-  split; [eapply find_alias_i; eauto|]. rewrite (counted_rl root is_src link_fuel Hwf dirs Hd). reflexivity.
-Qed.
-Print Assumptions C15_counted_once_partial.
+(* The spelling of the names written in #include directives, -include options and
+   macro bodies used by computed includes does not matter either: two content tables
+   whose files agree up to [name_equiv] names (names that yield the same regular file,
+   or none, from every directory of D) and two configurations that agree up to
+   spellings of source files (same realpath), -I directories (same realpath as a
+   member of D) and such names yield the same marks.  D is any set of directories that
+   contains the directory of every regular file; [alldirs root] is one. *)
+Theorem C15_include_names_invariant :
+  forall (root : fnode) (tab1 tab2 : ctable) (D : list path),
+    tab_rel root tab1 tab2 D ->
+    (forall q, isfile_A (getf_i root tab1) q = true -> In (dirname (rp_i root q)) D) ->
+  forall (fuel : nat) (members : list path) (c1 c2 : list (nat * entry)) (ms : list mark),
+    tab_structured tab1 -> tab_structured tab2 -> alias_cfg2 root tab1 D c1 c2 ->
+    Forall (fun fn => In (dirname (rp_i root fn)) D) members ->
+    find_A (rp_i root) (getf_i root tab1) fuel members c1 = Ok ms ->
+    find_A (rp_i root) (getf_i root tab2) fuel members c2 = Ok ms.
+Proof. exact find_alias_names. Qed.
+Print Assumptions C15_include_names_invariant.
+
+(* ... names that are alias-equivalent exist: "./n" for every n, in every tree *)
+Theorem C15_dot_prefix_is_alias :
+  forall root tab D n, name_equiv root tab D ("." :: n) n.
+Proof. exact name_equiv_dot. Qed.
+Print Assumptions C15_dot_prefix_is_alias.
+
+(* ... and a name none of whose components is ".", "..", "" or the name of a link
+   anywhere in the tree is link-free (the condition on canonical names below) *)
+Theorem C15_linkfree_names :
+  forall root n, Forall (fun c => plain c = true /\ ~ In c (link_names root)) n -> linkfree_name root n.
+Proof. exact linkfree_of_names. Qed.
+Print Assumptions C15_linkfree_names.
+
+(* Analysed inside the tree WITH EVERY LINK REMOVED, a canonical configuration (real
+   source files and -I directories, link-free names everywhere) yields the same marks. *)
+Theorem C15_linkfree_tree_same_analysis :
+  forall (root : fnode) (tab : ctable), wf root -> tab_names_ok root tab ->
+  forall (is_src : string -> bool) (F fuel : nat) (dirs : list path) (c : list (nat * entry)) (ms : list mark),
+    tab_structured tab -> canon_cfg root c -> Forall (fun d => is_real root d = true) dirs ->
+    find_A (rp_i root) (getf_i root tab) fuel (iter root is_src F dirs) c = Ok ms ->
+    find_A (rp_i (remove_links root)) (getf_i (remove_links root) tab) fuel (iter (remove_links root) is_src F dirs) c = Ok ms.
+Proof. exact find_linkfree. Qed.
+Print Assumptions C15_linkfree_tree_same_analysis.
+
+(* COUNTED ONCE.  The aliased code base (tree with links, contents tab_a, configuration
+   c_a) and the canonical code base with the links removed (tree remove_links root,
+   contents tab_c, configuration c_c) - related by: same files up to alias-equivalent
+   include names and equal line counts; entries pairwise the same platform, source files
+   with the same realpath, -I directories with the same realpath, alias-equivalent -D
+   path values and -include names; canonical names link-free, canonical files and
+   directories real - yield the same marks and the same setmap. *)
+Theorem C15_counted_once :
+  forall (root : fnode) (tab_a tab_c : ctable) (is_src : string -> bool)
+         (fuel nplat : nat) (dirs : list path) (c_a c_c : list (nat * entry)) (ms : list mark),
+    wf root -> Forall (fun d => is_real root d = true) dirs ->
+    tab_structured tab_a -> tab_structured tab_c ->
+    tab_rel root tab_a tab_c (alldirs root) -> alias_cfg2 root tab_a (alldirs root) c_a c_c ->
+    tab_names_ok root tab_c -> canon_cfg root c_c ->
+    find_A (rp_i root) (getf_i root tab_a) fuel (iter root is_src link_fuel dirs) c_a = Ok ms ->
+    find_A (rp_i (remove_links root)) (getf_i (remove_links root) tab_c) fuel
+           (iter (remove_links root) is_src link_fuel dirs) c_c = Ok ms /\
+    setmap (rp_i root) (shape_i root tab_a) nplat ms (counted root is_src link_fuel dirs) =
+    setmap (rp_i (remove_links root)) (shape_i (remove_links root) tab_c) nplat ms
+           (iter (remove_links root) is_src link_fuel dirs).
+Proof. exact counted_once_full. Qed.
+Print Assumptions C15_counted_once.
 
 (* Links add nothing: two trees that differ only in their links count the same files. *)
 Theorem C15_link_adds_nothing :
@@ -200,4 +244,125 @@ Example C15_nonvacuous :
    end).
 Proof.
   do 5 (split; [vm_compute; reflexivity|]). vm_compute. repeat split.
+Qed.
+
+(* ---------- non-vacuity of C15_counted_once: every hypothesis is met by a concrete instance ---------- *)
+(* cb/{src/{a.c, la.c -> a.c}, inc/{h.h, lh.h -> h.h}, li -> inc, lx.c -> /ext/x.c}, ext/x.c
+   aliased:   entry cb/li/../src/la.c  -I cb/src/../li/.   a.c: #include <lh.h>, #include <./h.h>, code
+   canonical: entry cb/src/a.c         -I cb/inc           a.c: #include <h.h>,  #include <h.h>,   code *)
+Definition C15_ex2_root : fnode :=
+  Dir [("cb", Dir [("src", Dir [("a.c", File "a"); ("la.c", Link false ["a.c"])]);
+                   ("inc", Dir [("h.h", File "h"); ("lh.h", Link false ["h.h"])]);
+                   ("li", Link false ["inc"]);
+                   ("lx.c", Link true ["ext"; "x.c"])]);
+       ("ext", Dir [("x.c", File "x")])].
+Definition C15_ex2_h : list (item act cond) :=
+  [IPlain 0 AOnce; IChain 1 (CDefd "X") [IPlain 2 ACode] [(3, HElse, [IPlain 4 (ADefine "X" VE)])] 5].
+Definition C15_ex2_a_alias : list (item act cond) :=
+  [IPlain 0 (AInclude 0 (IAngle ["lh.h"])); IPlain 1 (AInclude 1 (IAngle ["."; "h.h"])); IPlain 2 ACode].
+Definition C15_ex2_a_canon : list (item act cond) :=
+  [IPlain 0 (AInclude 0 (IAngle ["h.h"])); IPlain 1 (AInclude 1 (IAngle ["h.h"])); IPlain 2 ACode].
+Definition C15_ex2_tab_a : ctable :=
+  [("a", (flats act cond C15_ex2_a_alias, [1; 1; 2])); ("h", (flats act cond C15_ex2_h, [1; 1; 1; 1; 1; 1])); ("x", (flats act cond [IPlain 0 ACode], [1]))].
+Definition C15_ex2_tab_c : ctable :=
+  [("a", (flats act cond C15_ex2_a_canon, [1; 1; 2])); ("h", (flats act cond C15_ex2_h, [1; 1; 1; 1; 1; 1])); ("x", (flats act cond [IPlain 0 ACode], [1]))].
+
+Lemma C15_ex2_structured_a : tab_structured C15_ex2_tab_a.
+Proof.
+  intros k ls ws. unfold C15_ex2_tab_a. cbn [clookup].
+  destruct (String.eqb k "a"); [intros H; inversion H; exists C15_ex2_a_alias; reflexivity|].
+  destruct (String.eqb k "h"); [intros H; inversion H; exists C15_ex2_h; reflexivity|].
+  destruct (String.eqb k "x"); [intros H; inversion H; exists [IPlain 0 ACode]; reflexivity|discriminate].
+Qed.
+Lemma C15_ex2_structured_c : tab_structured C15_ex2_tab_c.
+Proof.
+  intros k ls ws. unfold C15_ex2_tab_c. cbn [clookup].
+  destruct (String.eqb k "a"); [intros H; inversion H; exists C15_ex2_a_canon; reflexivity|].
+  destruct (String.eqb k "h"); [intros H; inversion H; exists C15_ex2_h; reflexivity|].
+  destruct (String.eqb k "x"); [intros H; inversion H; exists [IPlain 0 ACode]; reflexivity|discriminate].
+Qed.
+
+Lemma C15_ex2_wf : wf C15_ex2_root.
+Proof.
+  unfold C15_ex2_root.
+  repeat first [ apply wf_file | apply wf_link
+               | apply wf_dir; [cbn; repeat (constructor; [cbn; intuition discriminate|]); constructor|]
+               | apply Forall_nil | apply Forall_cons; [split; [reflexivity|]|] ].
+Qed.
+
+Lemma C15_ex2_lh : name_equiv C15_ex2_root C15_ex2_tab_a (alldirs C15_ex2_root) ["lh.h"] ["h.h"].
+Proof.
+  intros d Hin. vm_compute in Hin.
+  repeat (destruct Hin as [<-|Hin]; [vm_compute; reflexivity|]). contradiction.
+Qed.
+
+Lemma C15_ex2_tab_rel : tab_rel C15_ex2_root C15_ex2_tab_a C15_ex2_tab_c (alldirs C15_ex2_root).
+Proof.
+  intros k. unfold C15_ex2_tab_a, C15_ex2_tab_c. cbn [clookup].
+  destruct (String.eqb k "a").
+  { split; [|reflexivity]. cbn.
+    constructor; [split; [reflexivity|]; cbn; constructor; constructor; exact C15_ex2_lh|].
+    constructor; [split; [reflexivity|]; cbn; constructor; constructor; apply name_equiv_dot|].
+    constructor; [split; [reflexivity|]; cbn; constructor|constructor]. }
+  destruct (String.eqb k "h").
+  { split; [|reflexivity]. cbn.
+    repeat (constructor; [split; [reflexivity|]; cbn; try exact I; try reflexivity; repeat constructor|]). constructor. }
+  destruct (String.eqb k "x"); [|exact I].
+  split; [|reflexivity]. cbn. repeat constructor.
+Qed.
+
+Definition C15_ex2_alias_cfg : list (nat * entry) :=
+  [(0, {| e_file := ["cb"; "li"; ".."; "src"; "la.c"]; e_dirs := [["cb"; "src"; ".."; "li"; "."]]; e_defs := []; e_incs := [] |})].
+Definition C15_ex2_canon_cfg : list (nat * entry) :=
+  [(0, {| e_file := ["cb"; "src"; "a.c"]; e_dirs := [["cb"; "inc"]]; e_defs := []; e_incs := [] |})].
+
+Lemma C15_ex2_alias_cfg2 : alias_cfg2 C15_ex2_root C15_ex2_tab_a (alldirs C15_ex2_root) C15_ex2_alias_cfg C15_ex2_canon_cfg.
+Proof.
+  constructor; [|constructor]. split; [reflexivity|]. cbn [snd].
+  split; [vm_compute; reflexivity|]. split; [vm_compute; tauto|]. split; [|split; constructor].
+  constructor; [|constructor]. exists ["cb"; "inc"]. split; [vm_compute; tauto|]. split; vm_compute; reflexivity.
+Qed.
+
+Lemma C15_ex2_hh_linkfree : linkfree_name C15_ex2_root ["h.h"].
+Proof. apply linkfree_of_names. constructor; [|constructor]. split; [reflexivity|]. vm_compute. intuition discriminate. Qed.
+
+Lemma C15_ex2_names_ok : tab_names_ok C15_ex2_root C15_ex2_tab_c.
+Proof.
+  intros k ls ws. unfold C15_ex2_tab_c. cbn [clookup].
+  destruct (String.eqb k "a").
+  { intros H; inversion H; subst. cbn. repeat constructor; exact C15_ex2_hh_linkfree. }
+  destruct (String.eqb k "h").
+  { intros H; inversion H; subst. cbn. repeat constructor. }
+  destruct (String.eqb k "x"); [|discriminate].
+  intros H; inversion H; subst. cbn. repeat constructor.
+Qed.
+
+Lemma C15_ex2_canon : canon_cfg C15_ex2_root C15_ex2_canon_cfg.
+Proof.
+  constructor; [|constructor]. cbn [snd]. split; [vm_compute; reflexivity|].
+  split; [constructor; [vm_compute; reflexivity|constructor]|]. split; constructor.
+Qed.
+
+Example C15_counted_once_nonvacuous :
+  match find_A (rp_i C15_ex2_root) (getf_i C15_ex2_root C15_ex2_tab_a) 5
+               (iter C15_ex2_root C15_ex_src link_fuel [["cb"]]) C15_ex2_alias_cfg with
+  | Ok ms =>
+      List.length ms = 8 /\
+      find_A (rp_i (remove_links C15_ex2_root)) (getf_i (remove_links C15_ex2_root) C15_ex2_tab_c) 5
+             (iter (remove_links C15_ex2_root) C15_ex_src link_fuel [["cb"]]) C15_ex2_canon_cfg = Ok ms /\
+      setmap (rp_i (remove_links C15_ex2_root)) (shape_i (remove_links C15_ex2_root) C15_ex2_tab_c) 1 ms
+             (iter (remove_links C15_ex2_root) C15_ex_src link_fuel [["cb"]]) = [([0], 9); ([], 1)] /\
+      List.length (iter C15_ex2_root C15_ex_src link_fuel [["cb"]]) = 4
+  | Err _ => False
+  end.
+Proof.
+  destruct (find_A (rp_i C15_ex2_root) (getf_i C15_ex2_root C15_ex2_tab_a) 5
+                   (iter C15_ex2_root C15_ex_src link_fuel [["cb"]]) C15_ex2_alias_cfg) as [ms|e] eqn:E.
+  - destruct (C15_counted_once C15_ex2_root C15_ex2_tab_a C15_ex2_tab_c C15_ex_src 5 1 [["cb"]]
+                C15_ex2_alias_cfg C15_ex2_canon_cfg ms C15_ex2_wf
+                ltac:(constructor; [vm_compute; reflexivity|constructor])
+                C15_ex2_structured_a C15_ex2_structured_c C15_ex2_tab_rel C15_ex2_alias_cfg2
+                C15_ex2_names_ok C15_ex2_canon E) as [H1 H2].
+    vm_compute in E. inversion E; subst. clear E H1 H2. vm_compute. repeat split.
+  - vm_compute in E. discriminate.
 Qed.
